@@ -184,6 +184,10 @@ class BOSSEnsemble(BaseClassifier):
 
                 for n, word_len in enumerate(self.word_lengths):
                     if n > 0:
+                        # words cannot be made longer than the transformer built them
+                        # (short windows provide fewer letters than requested)
+                        if word_len > boss.transformer.word_length:
+                            continue
                         boss = boss._shorten_bags(word_len)
 
                     boss.accuracy = self._individual_train_acc(
